@@ -1,15 +1,45 @@
 """Per-property configuration of the driver (verif.py). 'run' is the -test.run regexp."""
 
+ULIMIT_KB = 2500000  # address-space limit for checks that feed hostile sizes to allocating code
+
+IO_ASSUME = "generated io.Reader/io.Writer doubles honour the io contracts; readers return at most 3 consecutive (0,nil) reads"
+REF_ASSUME = "the reference recogniser/encoder for Thrift Binary in harness/ref (written from the protocol description, never importing the code under test) is correct"
+
 CHECKS = {
+    "C02": {
+        "run": "^TestC02_",
+        "level": "exploration",
+        "level_text": "Five-way differential against a recursive-descent reference: generated well-formed value trees (all type combinations, nesting to 63, strings to 70000 bytes) followed by trailers, read through Binary.Skip, BufferReader.Skip, SkipDecoder, BytesSkipDecoder and ReaderSkipDecoder under generated fragmentation incl. final data with io.EOF; every (key,value) and element type combination enumerated with sizes 0,1,2,5 under 6 source plans. Agreement on everything explored, not absence.",
+        "level_note": "Trusted: harness/ref encoder+walker, faultio.ScriptReader (records the source position), Go runtime.",
+        "technique": "property-based differential testing (rapid) + enumeration of type combinations against a reference grammar walker, with fault-injecting io.Reader doubles",
+        "assumptions": [IO_ASSUME, REF_ASSUME],
+    },
+    "C03": {
+        "run": "^TestC03_",
+        "level": "exploration",
+        "level_text": "Validity-predicate oracle (returns; no panic; no access outside the slice, detected by PROT_NONE guard pages flush before/after the input; success implies 0 <= n <= len(input)) over 29 entry points x 3 placements, on bounded-exhaustive short strings x type bytes, mutated valid encodings and (thorough) coverage-guided native fuzzing.",
+        "level_note": "Trusted: guard-page arena (mmap/mprotect + SetPanicOnFault), harness recover boundary. Entry points that allocate the declared size are only fed declared sizes <= 1 MiB / 4096 elements (counted as excluded); out-of-slice reads that stay within the slice's own bytes are not observable.",
+        "technique": "bounded-exhaustive enumeration + mutation-based property testing (rapid) + native go fuzzing with guard pages and a no-panic/no-over-report oracle",
+        "assumptions": [REF_ASSUME, "stack exhaustion through multi-megabyte nesting is outside the generated sizes"],
+        "ulimit_v_kb": ULIMIT_KB,
+        "fuzz": [{"name": "FuzzC03EntryPoints", "seconds": 120}],
+    },
     "C04": {
         "run": "^TestC04_",
         "level": "fault_enumeration",
         "level_text": "Cursor-model oracle over generated reader histories: bounded-exhaustive programs over a boundary alphabet crossed with source behaviours, the source error enumerated at every position of short streams (with/after data, two error values), plus thousands of random histories of up to 300 operations. Establishes agreement on everything explored, not absence.",
         "level_note": "Trusted: the cursor model (harness), the faultio.ScriptReader double, Go runtime. Sources honour the io.Reader contract and never return more than 3 consecutive empty reads.",
         "technique": "model-based property testing (rapid) + bounded-exhaustive history and fault-position enumeration against a cursor model",
-        "assumptions": [
-            "generated io.Reader doubles honour the io.Reader contract and return at most 3 consecutive (0,nil) reads",
-            "stream content is a fixed position-dependent function, so any offset error changes bytes",
-        ],
+        "assumptions": [IO_ASSUME, "stream content is a fixed position-dependent function, so any offset error changes bytes"],
+    },
+    "C08": {
+        "run": "^TestC08_",
+        "level": "exploration",
+        "level_text": "Accept/reject and extent of all five skippers compared with an independent recursive-descent recogniser on bounded-exhaustive strings over a grammar alphabet x type tags, every malformation operator over generated encodings, nesting depths 1..70 for every container kind, hostile size constants; exact agreement to level 63, rejection from 65, level 64 counted as boundary zone.",
+        "level_note": "Trusted: harness/ref walker. Allocating skippers run only when the largest non-negative declared acquisition is <= 1 MiB; negative sizes are always fed, under an address-space limit with the case journaled first so that a fatal abort is attributed by replay.",
+        "technique": "differential property-based testing (rapid) + bounded-exhaustive enumeration against a reference grammar recogniser; native go fuzzing in the thorough tier",
+        "assumptions": [IO_ASSUME, REF_ASSUME],
+        "ulimit_v_kb": ULIMIT_KB,
+        "fuzz": [{"name": "FuzzC08SkipGrammar", "seconds": 120}],
     },
 }
